@@ -187,9 +187,13 @@ def oracle_c08(tier, seed):
     from naunet.species import Species
     from naunet import chemistrydata
     viol, cases = [], 0
-    masses = {e.Symbol: float(e.NumberofNeutrons) + float(e.NumberofProtons) for e in chemistrydata.periodic_table}
-    for iso in chemistrydata.isotopes_table:
-        masses[iso.Symbol] = float(iso.NumberofNeutrons) + float(iso.NumberofProtons)
+    # nucleon numbers written here from the periodic table of the elements (most abundant isotope), not read from the package's csv
+    masses = {"H": 1.0, "D": 2.0, "He": 4.0, "C": 12.0, "N": 14.0, "O": 16.0, "F": 19.0, "Na": 23.0, "Mg": 24.0, "Al": 27.0, "Si": 28.0, "P": 31.0,
+              "S": 32.0, "Cl": 35.0, "Ar": 40.0, "Ca": 40.0, "Fe": 56.0, "Ni": 59.0, "e": 0.0, "E": 0.0}
+    for e_ in chemistrydata.periodic_table:
+        if e_.Symbol in masses and abs(float(e_.NumberofNeutrons) + float(e_.NumberofProtons) - masses[e_.Symbol]) > 1e-9 and e_.Symbol not in ("e", "E"):
+            viol.append({"property": "C08", "config": "data", "name": e_.Symbol, "what": f"periodic-table: {e_.Symbol} has {e_.NumberofNeutrons} neutrons + {e_.NumberofProtons} protons in the package's table, mass number {masses[e_.Symbol]:.0f} expected",
+                         "signature": f"C08:data:periodic-table:{e_.Symbol}"})
     configs = [
         ("default", None, None, {}, {"surface_prefix": "#"}),
         ("default-G", None, None, {}, {"surface_prefix": "G"}),
@@ -199,17 +203,25 @@ def oracle_c08(tier, seed):
          {"HE": "He", "SI": "Si", "CL": "Cl", "MG": "Mg", "NA": "Na", "FE": "Fe", "E": "e"}, {"surface_prefix": "G"}),
         # a user element list with NO pseudo elements / labels: nothing but the listed symbols may be accepted
         ("uppercase-no-labels", ["H", "HE", "C", "N", "O", "SI", "S", "CL", "MG", "NA", "FE", "E"], [], {}, {"surface_prefix": "#"}),
+        # history: two default labels are promoted to elements with add_known_elements (they must then be counted, not ignored)
+        ("promoted-labels", "PROMOTE", None, {}, {"surface_prefix": "#"}),
     ]
     rnd = random.Random(8 + seed)
     for cname, elements, pseudo, repl, kw in configs:
         fresh_species_state()
-        if elements is not None:
+        if elements == "PROMOTE":
+            Species("H")                                   # installs the default tables
+            Species.add_known_elements(["X", "M"])
+            symbols = ["H", "C", "O", "X", "M", "Si"]
+            labels = ["", "o"]
+            elements = None
+        elif elements is not None:
             Species.set_known_elements(list(elements))
             Species.set_known_pseudoelements(list(pseudo))
             Species._replacement = dict(repl)
             symbols = [e for e in elements if e != "E"]
             labels = ["", "o", "p"] if pseudo else [""]
-        else:
+        elif cname != "promoted-labels":
             symbols = [e for e in Species.default_elements if e not in ("e", "E")]
             labels = ["", "o", "p", "m"]
         maxsym = 2 if tier == "quick" else 3
